@@ -23,6 +23,7 @@ KFLT == 2
 KORD == 3
 KUNORD == 4
 KNEST == 5       \* orderable user class that is nested in another class (its qualified name differs from its name)
+KTIE == 6        \* user class with a WEAK order: KTie(v) < KTie(w) iff v \div 2 < w \div 2; KTie(2r), KTie(2r+1) are distinct keys that tie
 
 \* PyTreeKind enum of the engine (registry.h)
 NCUSTOM == 0
@@ -69,21 +70,33 @@ Concat(ss) == IF ss = <<>> THEN <<>> ELSE Head(ss) \o Concat(Tail(ss))
 IsNumKey(k) == k[1] \in {KINT, KFLT}
 NumVal(k) == IF k[1] = KINT THEN 2 * k[2] ELSE 2 * k[2] + 1      \* FLT v stands for v + 0.5
 Comparable(a, b) == \/ IsNumKey(a) /\ IsNumKey(b)
-                    \/ a[1] = b[1] /\ a[1] \in {KSTR, KORD, KNEST}
-KeyLt(a, b) == IF IsNumKey(a) /\ IsNumKey(b) THEN NumVal(a) < NumVal(b) ELSE a[2] < b[2]
+                    \/ a[1] = b[1] /\ a[1] \in {KSTR, KORD, KNEST, KTIE}
+KeyLt(a, b) == IF IsNumKey(a) /\ IsNumKey(b) THEN NumVal(a) < NumVal(b)
+               ELSE IF a[1] = KTIE /\ b[1] = KTIE THEN (a[2] \div 2) < (b[2] \div 2)
+               ELSE a[2] < b[2]
 \* rank of f"{type.__module__}.{type.__qualname__}":
-\*   builtins.float < builtins.int < builtins.str < vuniv.KOrd < vuniv.KUnord < vuniv.Wrap.AOrd
-TypeRank(k) == CASE k[1] = KFLT -> 0 [] k[1] = KINT -> 1 [] k[1] = KSTR -> 2 [] k[1] = KORD -> 3 [] k[1] = KUNORD -> 4 [] k[1] = KNEST -> 5
+\*   builtins.float < builtins.int < builtins.str < vuniv.KOrd < vuniv.KTie < vuniv.KUnord < vuniv.Wrap.AOrd
+TypeRank(k) == CASE k[1] = KFLT -> 0 [] k[1] = KINT -> 1 [] k[1] = KSTR -> 2 [] k[1] = KORD -> 3 [] k[1] = KTIE -> 4
+                 [] k[1] = KUNORD -> 5 [] k[1] = KNEST -> 6
 AllComparable(ks) == \A i, j \in DOMAIN ks : i # j => Comparable(ks[i], ks[j])
 SameTypeComparable(ks) == \A i, j \in DOMAIN ks : (i # j /\ ks[i][1] = ks[j][1]) => Comparable(ks[i], ks[j])
 TypedLt(a, b) == IF TypeRank(a) # TypeRank(b) THEN TypeRank(a) < TypeRank(b) ELSE KeyLt(a, b)
 
+\* list.sort() is STABLE: keys that tie under < (a weak order) keep their insertion order.  j precedes i in the result iff
+\* key j is less, or it came earlier and key i is not less than it
+StableSortBy(ks, Lt(_, _)) ==
+  LET n == Len(ks)
+      Pos(i) == Cardinality({j \in 1..n : j # i /\ (Lt(ks[j], ks[i]) \/ (j < i /\ ~Lt(ks[i], ks[j])))}) + 1
+  IN [r \in 1..n |-> ks[CHOOSE i \in 1..n : Pos(i) = r]]
 TotalOrderSorted(ks) ==
   IF Len(ks) <= 1 THEN ks
-  ELSE IF AllComparable(ks) THEN SortSeq(ks, KeyLt)
-  ELSE IF SameTypeComparable(ks) THEN SortSeq(ks, TypedLt)
+  ELSE IF AllComparable(ks) THEN StableSortBy(ks, KeyLt)
+  ELSE IF SameTypeComparable(ks) THEN StableSortBy(ks, TypedLt)
   ELSE ks                                                           \* documented fallback: insertion order
 
+\* two distinct keys neither of which is less than the other although they are comparable (weak order)
+Tied(a, b) == a # b /\ a[1] = KTIE /\ b[1] = KTIE /\ (a[2] \div 2) = (b[2] \div 2)
+NoTies(ks) == \A i, j \in DOMAIN ks : ~Tied(ks[i], ks[j])
 NoDupKeys(ks) == \A i, j \in DOMAIN ks : i # j => ks[i] # ks[j]
 SameKeySet(a, b) == Len(a) = Len(b) /\ \A i \in DOMAIN a : InSeq(a[i], b)
 
@@ -538,6 +551,7 @@ KeyRepr(k) == CASE k[1] = KINT -> IntRepr(k[2])
                 [] k[1] = KORD -> "KOrd(" \o ToString(k[2]) \o ")"
                 [] k[1] = KUNORD -> "KUnord(" \o ToString(k[2]) \o ")"
                 [] k[1] = KNEST -> "AOrd(" \o ToString(k[2]) \o ")"
+                [] k[1] = KTIE -> "KTie(" \o ToString(k[2]) \o ")"
 FactoryRepr(f) == CASE f = 0 -> "None" [] f = 1 -> "<class 'list'>" [] f = 2 -> "<class 'int'>"
                     [] f = 3 -> "<function fac3>" [] OTHER -> "<harness.vuniv._HistFactory object>"
 ClassName(c) == CASE c = 1 -> "CA" [] c = 2 -> "CB" [] c = 3 -> "CC" [] c = 4 -> "CU"
